@@ -284,6 +284,8 @@ fn run_property(prop: &'static str, tier: &str, seed: u64) -> i32 {
                 ctx.run(&C10EdgeSub { mt: None }, n, 16);
                 let n = ctx.n(400, 8_000);
                 ctx.run(&C10EdgeSub { mt: Some(4) }, n, 4);
+                let n = ctx.n(4_000, 80_000);
+                ctx.run(&C10BigSub, n, 8);
             }
             if prop == "C08" {
                 // an accepted periodic request fires at its occurrences only, also where the
@@ -292,6 +294,8 @@ fn run_property(prop: &'static str, tier: &str, seed: u64) -> i32 {
                 ctx.run(&C10EdgeSub { mt: None }, n, 16);
                 let n = ctx.n(200, 4_000);
                 ctx.run(&C10EdgeSub { mt: Some(4) }, n, 4);
+                let n = ctx.n(2_000, 40_000);
+                ctx.run(&C10BigSub, n, 8);
             }
             core::set_delay_mode(0, seed);
         }
@@ -442,6 +446,9 @@ fn replay_value(v: &serde_json::Value, path: &str) -> i32 {
         }
         if sub == "c10-partitions-st" {
             return replay_one(&C10Sub { mt: None }, p, case, path);
+        }
+        if sub == "c10-long-periods" {
+            return replay_one(&C10BigSub, p, case, path);
         }
         if sub == "c10-time-range-st" {
             return replay_one(&C10EdgeSub { mt: None }, p, case, path);
